@@ -69,7 +69,11 @@ var vC16Docs = []string{
 	// several responses with the same code (the export joins them), annotated root values, a regex that matches the empty string
 	"JSIGHT 0.3\nTYPE @cat\n{ // a cat\n  \"n\": \"Tom\"\n}\nTYPE @opt regex\n/[a-z]*/\nSERVER @s1\n  BaseUrl \"https://a\"\nSERVER @s2\n  BaseUrl \"https://b\"\nGET /c\n  200 @cat // first\n  200 // second\n  { // inline note\n    \"k\": @opt\n  }\n  404 regex\n  /x?/\n",
 	// JSON-RPC
-	"JSIGHT 0.3\nTYPE @r regex\n/z+/\nURL /rpc\n  Protocol json-rpc-2.0\n  Method m\n    Params\n    {\"p\": @r}\n    Result\n    [@r]\n",
+	"JSIGHT 0.3\nTYPE @r regex\n/z+/\nURL /rpc\n  Protocol json-rpc-2.0\n  Method m\n    Params\n    {\"p\": @r}\n    Result\n    [@r]\n",	// everything in the plural: three tags on one operation, three path parameters, several query
+	// parameters, request and response headers, several types and enums, several response codes
+	"JSIGHT 0.3\nTAG @a\nTAG @b\nTAG @c\nENUM @e1\n[1, 2]\nENUM @e2\n[\"x\", \"y\"]\nTYPE @t1\n{\"a\": 1, \"b\": 2, \"c\": 3}\nTYPE @t2\n{\n  \"e\": 1 // {enum: @e1}\n}\nTYPE @t3\n[@t1, @t2]\n" +
+		"GET /p/{x}/{y}/{z}\n  Tags @c @a @b\n  Query\n  {\"q1\": 1, \"q2\": \"s\", \"q3\": true}\n  Request\n    Headers\n    {\"h1\": \"a\", \"h2\": \"b\", \"h3\": \"c\"}\n    Body @t1\n  200\n    Headers\n    {\"r1\": 1, \"r2\": 2}\n    Body @t3\n  404 @t2\n  500 any\n" +
+		"POST /p/{x}\n  Tags @b @c\n  Request @t3\n  201 @t1\n",
 }
 
 // HRepeat (C16, emitter level): a catalog is serialised several times, with a symbolic
@@ -278,6 +282,30 @@ func vCheckJSON(c *JApiCore) {
 		vAssert(strings.Contains(j, "\""+k+"\":{"), "c04-server-missing")
 		return nil
 	})
+	// the JDoc Exchange 2.0.0 shape, walked on the parsed bytes (zz_verif_shape.go)
+	bad, _ := vShape(j)
+	vAssert(bad == "", "c04-jdoc-exchange-shape: "+bad)
+	badI, _ := vShape(ji)
+	vAssert(badI == "", "c04-jdoc-exchange-shape-indent: "+badI)
+	// every entity of the catalog is in the bytes, under its key
+	top, _ := vJSONParse(j)
+	_ = cat.Interactions.Each(func(k catalog.InteractionID, v catalog.Interaction) error {
+		vAssert(top.get("interactions").get(k.String()) != nil, "c04-interaction-missing-in-the-bytes")
+		return nil
+	})
+	vAssert(len(top.get("interactions").keys) == cat.Interactions.Len(), "c04-interactions-invented")
+	_ = cat.UserTypes.Each(func(k string, _ *catalog.UserType) error {
+		vAssert(top.get("userTypes").get(k) != nil, "c04-user-type-missing-in-the-bytes")
+		return nil
+	})
+	_ = cat.UserEnums.Each(func(k string, _ *catalog.UserRule) error {
+		vAssert(top.get("userEnums").get(k) != nil, "c04-user-enum-missing-in-the-bytes")
+		return nil
+	})
+	_ = cat.Servers.Each(func(k string, _ *catalog.Server) error {
+		vAssert(top.get("servers").get(k) != nil, "c04-server-missing-in-the-bytes")
+		return nil
+	})
 }
 
 // vCheckOpenAPIJSON (C17): if the export succeeds, its JSON is valid, both forms agree up to
@@ -292,6 +320,23 @@ func vCheckOpenAPIJSON(c *JApiCore) {
 	vAssert(vJSONCompact([]byte(oi)) == o, "c17-openapi-json-and-indent-differ-beyond-whitespace")
 	vAssert(strings.HasPrefix(o, "{\"openapi\":\"3.0.3\",\"info\":{"), "c17-openapi-and-info-first")
 	vAssert(strings.Contains(o, "\"paths\":{"), "c17-no-paths-key")
+	{
+		var ops []vOp
+		_ = c.catalog.Interactions.Each(func(id catalog.InteractionID, v catalog.Interaction) error {
+			if hi, ok := v.(*catalog.HTTPInteraction); ok {
+				op := vOp{path: string(hi.PathVal), method: hi.HttpMethod.String()}
+				for _, r := range hi.Responses {
+					op.codes = append(op.codes, r.Code)
+				}
+				ops = append(ops, op)
+			}
+			return nil
+		})
+		var types []string
+		_ = c.catalog.UserTypes.Each(func(k string, _ *catalog.UserType) error { types = append(types, k[1:]); return nil })
+		bad := vOpenAPIShape(o, ops, types)
+		vAssert(bad == "", "c17-openapi-shape: "+bad)
+	}
 	const refKey = "\"$ref\":\"#/components/schemas/"
 	rest := o
 	for {
